@@ -670,14 +670,102 @@ class Ref:
 
     def _projection(self, t, o):
         """The effective options a dataset saw, restricted to the keys its sub-graph mentions
-        (a static over-approximation of 'the options it depends on')."""
-        from .optspace import restrict
-
+        (a static over-approximation of 'the options it depends on').  Below a wrapper that pre-sets
+        options, a mentioned key whose value is supplied ENTIRELY by the pre-set dictionary (the caller's
+        entries for it, if any, are all overridden) counts with the pre-set value: the caller's value for
+        it cannot matter.  A key the caller still contributes to counts with the caller's whole value."""
         from .terms import walk
 
         if any(n[0] == "all" for n in walk(t)):
             return repr(freeze(o))  # AllOptions depends on the whole dictionary
-        return repr(freeze(restrict(o, self._mentioned(t))))
+        acc = set()
+        for c in self._ds_parts(t):
+            self._proj(c, o, [], acc)
+        self._proj_keys(self._node_keys(t), o, [], acc)
+        return repr(sorted(acc, key=repr))
+
+    @staticmethod
+    def _node_keys(n):
+        """option keys mentioned by this node itself (not by its children)"""
+        from .terms import _tmpl_refs
+
+        k = n[0]
+        if k in ("opt", "optf", "optdom"):
+            return {n[1]}
+        if k == "tmpl":
+            return {r for r in _tmpl_refs(n[1]) if not (r.startswith(":") and r.endswith(":"))}
+        if k in ("switch", "overloaded") and isinstance(n[1], tuple) and n[1][0] == "optkey":
+            return {n[1][1]}
+        if k == "ds":
+            d = dsprops(n)["dispatch"]
+            if d is not None and d[0] == "optkey":
+                return {d[1]}
+        return set()
+
+    @staticmethod
+    def _ds_parts(t):
+        from .terms import children
+
+        return children(t)
+
+    def _close(self, keys):
+        keys = set(keys)
+        changed = True
+        while changed:
+            changed = False
+            for a in list(keys):
+                for b in self.value_refs.get(a, ()):
+                    if b not in keys:
+                        keys.add(b)
+                        changed = True
+        return keys
+
+    def _key_view(self, key, o, layers):
+        """What the options say about ``key`` at a position below the given wrapper layers (outermost
+        first): default layers are overlaid; a forced layer that supplies the key entirely replaces
+        whatever the caller said about it; otherwise the caller's own value stands."""
+        from .optspace import exists, restrict
+
+        cur = o
+        for kind, d in layers:
+            if kind == "D":
+                cur = overlay(d, cur)
+            elif exists(d, key):
+                try:
+                    if lookup(overlay(cur, d), key) == lookup(d, key):
+                        only = {}
+                        set_path(only, key, copy.deepcopy(lookup(d, key)))
+                        cur = only
+                except Absent:
+                    pass
+        return repr(freeze(restrict(cur, {key})))
+
+    def _proj_keys(self, keys, o, layers, acc):
+        for k in self._close(keys):
+            acc.add((k, self._key_view(k, o, layers)))
+
+    def _proj(self, n, o, layers, acc):
+        from .terms import children
+
+        k = n[0]
+        if k == "withopt":
+            self._proj(n[1], o, layers + [("F" if n[3] else "D", n[2])], acc)
+            return
+        if k == "dswo":
+            self._proj(n[1], o, layers + [("F", n[2])], acc)
+            return
+        if k == "dswdo":
+            self._proj(n[1], o, layers + [("D", n[2])], acc)
+            return
+        if k == "ds":
+            p = dsprops(n)
+            if p["default_options"]:
+                layers = layers + [("D", p["default_options"])]
+            if p["options"]:
+                layers = layers + [("F", p["options"])]
+        self._proj_keys(self._node_keys(n), o, layers, acc)
+        for c in children(n):
+            self._proj(c, o, layers, acc)
 
     def _switch_ds(self, p, body, o):
         d = p["dispatch"]
